@@ -5,6 +5,7 @@
 -/
 import TE.Driver.Fam
 import TE.Model.Rank
+import TE.Model.Fams
 import TE.Spec.Rank
 namespace TE.Driver
 open TE TE.Rank
@@ -47,7 +48,7 @@ def hitStat (k : Option Int) (a : Args) : Except Err (List Q) := do
   if i.ndim != 2 then throw .value
   if i.shape.head? != t.shape.head? then throw .value
   let tg ← liftP (ints t.data)
-  hitRate i.rows (i.shape[1]?.getD 0) tg k
+  Fams.hitRateStat (i.shape[1]?.getD 0) k (i.rows, tg)
 
 def rrStat (k : Option Int) (a : Args) : Except Err (List Q) := do
   let (i, t) ← io a
@@ -55,7 +56,7 @@ def rrStat (k : Option Int) (a : Args) : Except Err (List Q) := do
   if i.ndim != 2 then throw .value
   if i.shape.head? != t.shape.head? then throw .value
   let tg ← liftP (ints t.data)
-  reciprocalRank i.rows tg k
+  Fams.reciprocalRankStat k (i.rows, tg)
 
 def listPack (stat : Args → Except Err (List Q)) : Pack :=
   ⟨List Q, additive (listAcc Q) stat (fun l => .ok (showVecQ l))⟩
@@ -179,6 +180,18 @@ def ctrStat (nt : Nat) (a : Args) : Except Err (List (Q × Q)) := do
   | .tensor x => pure (((taskRows i).zip (taskRows x)).map fun p => ctrUpdate p.1 p.2)
   | .scalar q => pure ((taskRows i).map fun r => ctrUpdateScalar r q)
 
+/-- the same checks; the typed batch `(task rows, weights)` of `Fams.ctrStat`. -/
+def ctrBatch (nt : Nat) (a : Args) : Except Err (Mat × Fams.TW) := do
+  let i ← liftP (a.tensor "input")
+  let w ← liftP (weightOf a "weights")
+  if i.ndim != 1 && i.ndim != 2 then throw .value
+  if (match w with | .tensor x => x.shape != i.shape | _ => false) then throw .value
+  if nt == 1 && i.ndim > 1 then throw .value
+  if nt != 1 && (i.ndim == 1 || i.shape.head? != some nt) then throw .value
+  match w with
+  | .tensor x => pure (taskRows i, .tensor (taskRows x))
+  | .scalar q => pure (taskRows i, .scalar q)
+
 def fnCtr (a : Args) : Except Err String := do
   let nt ← liftP (numTasks a)
   let s ← ctrStat nt a
@@ -190,8 +203,8 @@ def famCtr (cfg : Args) : Except String Fam := do
   if nt < 1 then throw "constructor raises ValueError"
   pure {
     stat := fun a => do
-      let s ← ctrStat nt a
-      pure [s.map (·.1), s.map (·.2)]
+      let b ← ctrBatch nt a
+      Fams.ctrStat b.1.length b
     outA := fun p =>
       .ok (showVecX (((part p 0 nt).zip (part p 1 nt)).map fun q => ctrCompute eps64 q.1 q.2)) }
 
@@ -219,6 +232,19 @@ def wcStat (nt : Nat) (a : Args) : Except Err (List (Q × Q)) := do
     if x.shape != i.shape then throw .value
     pure (((taskRows i).zip ((taskRows t).zip (taskRows x))).map fun p => wcUpdate p.1 p.2.1 p.2.2)
 
+/-- the same checks; the typed batch `(input rows, target rows, weights)` of `Fams.wcStat`. -/
+def wcBatch (nt : Nat) (a : Args) : Except Err (Mat × Mat × Fams.TW) := do
+  let (i, t) ← io a
+  let w ← liftP (weightOf a "weight")
+  if i.shape != t.shape then throw .value
+  if nt == 1 && i.ndim > 1 then throw .value
+  if nt != 1 && (i.ndim == 1 || i.shape.head? != some nt) then throw .value
+  match w with
+  | .scalar q => pure (taskRows i, taskRows t, .scalar q)
+  | .tensor x =>
+    if x.shape != i.shape then throw .value
+    pure (taskRows i, taskRows t, .tensor (taskRows x))
+
 def fnWc (a : Args) : Except Err String := do
   let nt ← liftP (numTasks a)
   let s ← wcStat nt a
@@ -230,8 +256,8 @@ def famWc (cfg : Args) : Except String Fam := do
   if nt < 1 then throw "constructor raises ValueError"
   pure {
     stat := fun a => do
-      let s ← wcStat nt a
-      pure [s.map (·.1), s.map (·.2)]
+      let b ← wcBatch nt a
+      Fams.wcStat b.1.length b
     outA := fun p =>
       let den := part p 1 nt
       -- `if torch.any(self.weighted_target_sum == 0.0): return torch.empty(0)`
